@@ -75,7 +75,7 @@ class StopListener(EventListener):
         run_id = self.run_id
         super().on_stop()
         ent = {"tick": R.TICK[0], "run_id": run_id, "msg": None, "exc": None,
-               "n_cmdlog": len(self.rig.cmdlog)}
+               "n_cmdlog": len(self.rig.cmdlog), "records": records_plain(self.rig)}
         try:
             assert run_id is not None
             ent["msg"] = self.builder.create_run_stopped_msg(run_id)
@@ -165,35 +165,93 @@ def all_known_nodes(rig: R.EngineRig):
     return out
 
 
-def states_of(rig: R.EngineRig):
-    """[(record, instance_id, [state names])] straight from the runtime records (used by classifiers only)."""
+def records_plain(rig: R.EngineRig) -> list[tuple]:
+    """[(record name, node class, node id, [(instance id, [state names])])] from the runtime records, instances in order
+    of first appearance (used by classifiers only, never by an oracle)."""
     out = []
     for r in rig.e.tracking.runtimeinfo.records:
         by: dict[str, list[str]] = {}
         for s in r.states:
             by.setdefault(s.instance_id, []).append(s.state_name.value)
-        for iid, names in by.items():
-            out.append((r, iid, names))
+        out.append((r.name, r.node_class_name, r.node_id, list(by.items())))
+    return out
+
+
+def classify_records(records: list[tuple], requested_ids=()) -> tuple[str | None, str]:
+    """Names the cause of 'a state follows a conclusive state' (which makes get_runlog raise). Returns (suffix, text)."""
+    for name, cls, node_id, insts in records:
+        # a request addresses an item id, but Tracking.mark_forced/mark_cancelled book the state on the newest
+        # instance of that item's record: "requested" is therefore decided per record
+        rec_requested = any(i in requested_ids for i, _ in insts)
+        for k, (iid, names) in enumerate(insts):
+            concl = [x for x, n in enumerate(names) if n in CONCLUSIVE]
+            if not concl or concl[0] == len(names) - 1:
+                continue
+            first = concl[0]
+            tail = names[first + 1:]
+            desc = f"record {name!r} ({cls}) instance states {names}"
+            if rec_requested and all(t in ("forced", "cancelled") for t in tail):
+                return "request_on_concluded_item_appends_state", desc
+            if cls == "EngineCommandNode" and names[first] == "failed" and tail[0] in ("completed", "cancelled") \
+                    and "internalenginecommandset" not in names[:first]:
+                # argument validation failed before the command started, but its instance stays registered and its
+                # request stays in the executing list: it is run (-> completed) or cancelled by Stop/Restart later
+                return "failed_engine_command_stays_registered", desc
+            if cls == "UodCommandNode" and names[first] == "cancelled" and tail == ["failed"] and "uodcommandset" in names:
+                # exec function raised: CommandManager cancels the command (cancelled) and then marks it failed as well
+                return "failing_uod_command_cancelled_then_failed", desc
+            if cls == "AlarmNode" and rec_requested and names[first] == "cancelled" \
+                    and all(t in ("awaitingcondition", "started", "completed", "forced") for t in tail):
+                # accepted cancel of an Alarm: visit_AlarmNode never looks at node.cancelled and keeps adding states
+                return "cancelled_alarm_keeps_recording_states", desc
+            if rec_requested and names[:2] == ["created", "cancelled"] and "started" in tail \
+                    and cls in ("EngineCommandNode", "UodCommandNode"):
+                # cancel accepted while the line was visited but its command not yet started (one-tick window): only the
+                # node flag is set, the already scheduled command request starts anyway
+                return "command_cancelled_before_start_still_starts", desc
+            older_open = [(o, on) for o, on in insts[:k] if "started" in on and not any(n in CONCLUSIVE for n in on)]
+            if names[:first] == ["created"] and names[first] in ("completed", "cancelled") and older_open:
+                # the conclusion of an older, really executing instance of this line was booked on the instance id
+                # created by the line's next visit (Tracking.mark_completed/mark_cancelled use record.last_instance_id)
+                return "conclusion_recorded_on_newer_instance_of_same_line", \
+                    desc + f"; older instance still open: {older_open[0][1]}"
+            return None, desc
+    return None, "no record with a state after a conclusive state found"
+
+
+def misbooked_conclusions(records: list[tuple]) -> set:
+    """instance ids that really executed (command set) but stay open because their completed/cancelled state was booked
+    on a newer instance id of the same record (see classify_records)."""
+    out = set()
+    for name, cls, node_id, insts in records:
+        for k, (iid, names) in enumerate(insts):
+            if ("uodcommandset" in names or "internalenginecommandset" in names) and not any(n in CONCLUSIVE for n in names):
+                for o, on in insts[k + 1:]:
+                    if on[:1] == ["created"] and len(on) > 1 and on[1] in ("completed", "cancelled"):
+                        out.add(iid)
     return out
 
 
 def classify_unproducible(rig: R.EngineRig, requested_ids=()) -> tuple[str | None, str]:
-    """Why does get_runlog raise? Looks for an instance whose states continue after a conclusive one."""
-    for r, iid, names in states_of(rig):
-        concl = [k for k, n in enumerate(names) if n in CONCLUSIVE]
-        if not concl or concl[0] == len(names) - 1:
-            continue
-        first = concl[0]
-        tail = names[first + 1:]
-        desc = f"record {r.name!r} ({r.node_class_name}) states {names}"
-        if iid in requested_ids and tail and all(t in ("forced", "cancelled") for t in tail):
-            return "C15.request_on_concluded_item_appends_state", desc
-        if r.node_class_name == "EngineCommandNode" and names[first] == "failed" and "completed" in tail \
-                and "internalenginecommandset" not in names[:first]:
-            # the command never started (argument validation failed) and is nevertheless run and completed later
-            return "C15.failed_engine_command_later_completed", desc
-        return None, desc
-    return None, "no record with a state after a conclusive state found"
+    suffix, desc = classify_records(records_plain(rig), requested_ids)
+    return ("C15." + suffix if suffix else None), desc
+
+
+def burst_tainted(reqs: list[tuple], alive_at_tick_start: dict, name_of: dict, conflicts, uod_names) -> dict:
+    """tick -> instance ids tainted by a burst of >= 2 mutually conflicting UOD requests dequeued by the same
+    command-manager tick (the requests themselves plus the conflicting instances alive at that tick)."""
+    by_tick: dict[int, list] = {}
+    for q in reqs:
+        if q[1] in uod_names:
+            by_tick.setdefault(q[0], []).append(q)
+    burst = {}
+    for t, qs in by_tick.items():
+        grp = [q for q in qs if any(o is not q and conflicts(o[1], q[1]) for o in qs)]
+        if len(grp) >= 2:
+            tainted = {q[2] for q in grp}
+            tainted |= {o for o in alive_at_tick_start.get(t, ()) if any(conflicts(name_of[o], q[1]) for q in grp)}
+            burst[t] = tainted
+    return burst
 
 
 def check_runlog(rig: R.EngineRig, res, viol: list, requested_ids=(), completeness: bool = True):
